@@ -787,3 +787,123 @@ def run_depth(case):
         out["slot_after"] = int(cc._array[index])
         out["locks_nonzero"] = sorted(str(k[1]) for k, v in getattr(cc, "_locks", {}).items() if v != 0)
     return out
+
+
+# ------------------------------------------------------------------ OpenmlSource and the shared download semaphore
+
+class WouldWait(Exception):
+    """acquire() on a semaphore without a free permit: in this single-threaded scenario the caller would wait forever"""
+
+
+OPENML_ARFF = ["@relation weather", "@attribute pH real", "@attribute coli {2, 1}", "@attribute play {n, y}", "@data",
+               "8.1,2,n", "8.2,2,n", "8.3,1,y"]
+
+
+def openml_entries(data_id, bad=None):
+    """the cache entries OpenmlSource needs for a tiny fake data set (what the REST API would have returned)"""
+    import json
+    data = {"data_set_description": {"id": str(data_id), "name": "testdata", "version": "2", "format": "ARFF", "licence": "CC0",
+                                     "file_id": "22044555", "visibility": "public",
+                                     "status": "deactivated" if bad == "deactivated" else "active",
+                                     "default_target_attribute": "play"}}
+    feat = {"data_features": {"feature": [
+        {"index": "0", "name": "pH", "data_type": "numeric", "is_ignore": "false", "is_row_identifier": "false"},
+        {"index": "1", "name": "coli", "data_type": "nominal", "is_ignore": "false", "is_row_identifier": "false"},
+        {"index": "2", "name": "play", "data_type": "nominal", "is_ignore": "false", "is_row_identifier": "false"}]}}
+    key = "openml_%06d_" % data_id
+    return {key + "data": json.dumps(data).splitlines(),
+            key + "feat": ["{not json"] if bad == "badfeat" else json.dumps(feat).splitlines(),
+            key + "arff": list(OPENML_ARFF)}
+
+
+def run_openml(case):
+    """OpenmlSource.read against an instrumented `openml_semaphore` and a cacher that already holds / receives during
+    acquire() / serves on demand the entries of a fake data set; no network"""
+    import coba.context.cachers as M
+    from coba.context import CobaContext
+    from coba.environments.openml import OpenmlSource
+    permits0 = int(case.get("permits", 3))
+    st = {"permits": permits0, "acquires": 0, "releases": 0, "hook": None}
+
+    class Sem:
+        def acquire(self, *a, **k):
+            if st["permits"] <= 0:
+                raise WouldWait()
+            st["permits"] -= 1
+            st["acquires"] += 1
+            if st["hook"]:
+                h, st["hook"] = st["hook"], None
+                h()
+            return True
+
+        def release(self, *a, **k):
+            st["permits"] += 1
+            st["releases"] += 1
+
+        def __enter__(self):
+            self.acquire()
+            return self
+
+        def __exit__(self, *a):
+            self.release()
+
+    served = {}
+
+    class Serving(M.MemoryCacher):
+        """serves the entries of sources that are 'not cached' without calling the getter (stands in for the network)"""
+
+        def get_set(self, key, getter):
+            if key in served and key not in self._cache:
+                from contextlib import nullcontext
+                return nullcontext(list(served[key]))
+            return super().get_set(key, getter)
+    inner = Serving()
+    cacher = M.ConcurrentCacher(inner) if case.get("concurrent") else inner
+    saved = (CobaContext._cacher, CobaContext._store, CobaContext._logger) if hasattr(CobaContext, "_store") else None
+    old_cacher, old_store, old_logger = CobaContext.cacher, CobaContext.store, CobaContext.logger
+    out = {"reads": [], "permits0": permits0}
+    try:
+        from coba.context import NullLogger
+        CobaContext.logger = NullLogger()
+        CobaContext.cacher = cacher
+        CobaContext.store = {"openml_semaphore": Sem()} if case.get("semaphore", True) else {}
+        for n, rd in enumerate(case["reads"]):
+            data_id = 42693 + n
+            entries = openml_entries(data_id, rd.get("bad"))
+
+            def fill(entries=entries):
+                for k, v in entries.items():
+                    with cacher.get_set(k, list(v)):
+                        pass
+            if rd["order"] == "before":
+                fill()
+            elif rd["order"] == "during" and case.get("semaphore", True):
+                st["hook"] = fill
+            else:
+                served.update(entries)
+            a0, r0 = st["acquires"], st["releases"]
+            res = {"order": rd["order"], "mode": rd.get("mode", "full"), "bad": rd.get("bad")}
+            try:
+                gen = OpenmlSource(data_id=data_id).read()
+                if rd.get("mode") == "partial":
+                    it = iter(gen)
+                    first = next(it)
+                    it.close()
+                    res["rows"] = 1
+                else:
+                    res["rows"] = len(list(gen))
+                res["outcome"] = "ok"
+            except WouldWait:
+                res["outcome"] = "would-wait"
+            except Exception as e:
+                res["outcome"] = "raised:" + type(e).__name__
+            st["hook"] = None
+            res["acquires"], res["releases"] = st["acquires"] - a0, st["releases"] - r0
+            res["permits_after"] = st["permits"]
+            if case.get("concurrent"):
+                res["array_nonzero"] = [[i, v] for i, v in enumerate(cacher._array) if v != 0][:4]
+                res["locks_nonzero"] = sorted(str(k[1]) for k, v in getattr(cacher, "_locks", {}).items() if v != 0)
+            out["reads"].append(res)
+    finally:
+        CobaContext.cacher, CobaContext.store, CobaContext.logger = old_cacher, old_store, old_logger
+    return out
